@@ -13,8 +13,9 @@ The in-process correspondence drives the renderer packages directly and has to c
   was formatted before.
 * every renderer command on generated inputs with awkward keys and limits: no panic, exit status 0.
 """
-import os, re, subprocess
+import os, re, subprocess, sys
 
+sys.path.insert(0, os.path.dirname(__file__))
 from common import build_rare, Rand
 
 
@@ -177,6 +178,8 @@ def run(ctx):
             ["heatmap", "--snapshot", "--num", lim, "--cols", str(r.pick([0, 1, 3, 10])), "--scale", r.pick(["linear", "log2", "log10"])] + m + ["-e", "{$ {1} {2} {3}}"],
             ["spark", "--snapshot", "--num", lim, "--cols", str(r.pick([0, 1, 3, 10]))] + (["--notruncate"] if r.intn(2) else []) + m + ["-e", "{$ {1} {2} {3}}"],
             ["reduce", "--snapshot", "--rows", lim, "--cols", str(r.pick([0, 1, 3, 10]))] + m + ["-g", "k={0}", "-g", "j={2}", "-a", "n={sumi {.} {3}}"],
+            # the output path of reduce without groups (lines written straight to the terminal)
+            ["reduce", "--snapshot"] + m + ["-a", "n={sumi {.} {3}}", "-a", "日本語のキー={2}", "-a", "={1}"],
         ]
         for c in cmds:
             p = subprocess.run([exe] + c, input=data, stdout=subprocess.PIPE, stderr=subprocess.PIPE, timeout=60)
